@@ -177,3 +177,28 @@ func fillMode(desc string) int {
 	}
 	return h % fillModes
 }
+
+// refOpText is the reference text of an operator: the six built-in comparison operators are fixed by
+// the documentation (op.go), every other ComparisonOperator value is "<invalid_operator>"; user
+// operators speak for themselves. The reference renderers use this table rather than the library's
+// own ComparisonOperator.String, so that a slip there is visible.
+func refOpText(op stackage.Operator) string {
+	if co, ok := op.(stackage.ComparisonOperator); ok {
+		switch co {
+		case 1:
+			return "="
+		case 2:
+			return "!="
+		case 3:
+			return "<"
+		case 4:
+			return ">"
+		case 5:
+			return "<="
+		case 6:
+			return ">="
+		}
+		return "<invalid_operator>"
+	}
+	return op.String()
+}
